@@ -645,7 +645,7 @@ impl PartialHashAggregateStream {
                 timer.done();
                 match resize_result {
                     Ok(()) => {}
-                    Err(DataFusionError::ResourcesExhausted(_)) => {
+                    Err(oom @ DataFusionError::ResourcesExhausted(_)) => {
                         let elapsed_compute =
                             self.baseline_metrics.elapsed_compute().clone();
                         // Stops on drop
@@ -664,8 +664,10 @@ impl PartialHashAggregateStream {
                         let materialized_group_states = match state_batch_result {
                             Ok(Some(batch)) => batch,
                             Ok(None) => {
-                                return Self::break_with_err(internal_datafusion_err!(
-                                    "Partial hash aggregate ran out of memory with no aggregated groups"
+                                // Nothing to emit early: the memory limit is too small for
+                                // this operator, which is resource exhaustion and not a bug
+                                return Self::break_with_err(oom.context(
+                                    "Partial hash aggregate ran out of memory with no aggregated groups",
                                 ));
                             }
                             Err(e) => return Self::break_with_err(e),
@@ -1192,11 +1194,12 @@ impl FinalHashAggregateStream {
                                 "Final hash aggregate cannot spill because temporary files are not enabled in the DiskManager",
                             ));
                         };
-                        // Sanity check: impossible to OOM when there is no group aggregated.
+                        // Nothing to spill: the memory limit is too small for this
+                        // operator, which is resource exhaustion and not a bug
                         if hash_table.building_group_count() == 0 {
-                            return Self::break_with_internal_err(
+                            return Self::break_with_err(e.context(
                                 "Final hash aggregate ran out of memory with no aggregated groups",
-                            );
+                            ));
                         }
                         // Go to the next state to perform spilling the aggregated
                         // groups so far.
